@@ -105,7 +105,9 @@ def run(ctx):
         return
     if ctx.part == "shapes":
         base_ops = []
-        for s in SHAPES:
+        from ..gen import long_urls
+
+        for s in SHAPES + long_urls()[:8]:
             base_ops.append({"op": "ctor", "s": s})
             base_ops.append({"op": "ctor", "s": s, "encoded": True})
         mods = [("with_user", ["x"]), ("with_user", [None]), ("with_password", [""]), ("with_password", [None]), ("with_port", [None]), ("with_port", [0]), ("with_scheme", ["https"]),
@@ -118,7 +120,7 @@ def run(ctx):
                 ctx.count("rejected")
                 continue
             check_copies(ctx, u, {"op": bop}, ("shape", "enc" if bop.get("encoded") else "auto", text_classes(bop["s"])))
-            for m, args in mods:
+            for m, args in (mods if len(bop["s"]) < 1000 else mods[:2]):
                 op = {"op": "mod", "base": bop, "m": m, "args": args}
                 for touched in (False, True):
                     v = guarded(apply, op, touch_all if touched else None)
